@@ -72,3 +72,114 @@ def test_data_cairo_snippets():
             except Exception:
                 pass
     return out
+
+
+# ---------------------------------------------------------------------------------------------
+# Negative templates: small hand-shaped Sierra programs that each violate exactly one clause of the
+# acceptance discipline (C15) and therefore MUST be rejected by the real compiler; they are fed to
+# the Sierra harnesses next to the corpus (the structured "mostly invalid" stream).  If a change
+# to /repo makes the real pipeline accept one of them, the verified model checker still rejects it
+# and the check reports the program.
+_HDR = """type felt252 = felt252;
+type u8 = u8;
+type u128 = u128;
+type Unit = Struct<ut@Tuple>;
+type U2 = Struct<ut@verif::U2>;
+type NZ = NonZero<felt252>;
+libfunc branch_align = branch_align;
+libfunc jump = jump;
+libfunc felt252_is_zero = felt252_is_zero;
+libfunc drop_nz = drop<NZ>;
+libfunc dup_felt = dup<felt252>;
+libfunc drop_felt = drop<felt252>;
+libfunc store_felt = store_temp<felt252>;
+libfunc felt252_add = felt252_add;
+"""
+_CTORS = {
+    "felt252": ("felt252_const<7>", True),
+    "u8": ("u8_const<7>", True),
+    "u128": ("u128_const<7>", True),
+    "Unit": ("struct_construct<Unit>", False),
+    "U2": ("struct_construct<U2>", False),
+}
+
+
+def _merge_template(t1, t2):
+    """Two paths define [2] with types t1 / t2 and merge; afterwards [2] is consumed as t1."""
+    c1, _ = _CTORS[t1]
+    c2, _ = _CTORS[t2]
+    return _HDR + f"""libfunc mk1 = {c1};
+libfunc mk2 = {c2};
+libfunc st1 = store_temp<{t1}>;
+libfunc st2 = store_temp<{t2}>;
+libfunc drop1 = drop<{t1}>;
+
+felt252_is_zero([0]) {{ fallthrough() B([1]) }};
+branch_align() -> ();
+mk1() -> ([2]);
+st1([2]) -> ([2]);
+jump() {{ M() }};
+B:
+branch_align() -> ();
+drop_nz([1]) -> ();
+mk2() -> ([2]);
+st2([2]) -> ([2]);
+M:
+drop1([2]) -> ();
+return();
+
+verif::merge@0([0]: felt252) -> ();
+"""
+
+
+def negative_sierra_templates(out_dir):
+    """Writes the negative templates into out_dir as n_*.sierra; returns their number."""
+    os.makedirs(out_dir, exist_ok=True)
+    progs = {}
+    ts = list(_CTORS)
+    for a in ts:
+        for b in ts:
+            if a != b:
+                progs["merge_%s_%s" % (a, b)] = _merge_template(a, b)
+    body = {
+        # a result id used twice in one branch (second put overrides the first)
+        "dup_result_ids": "dup_felt([0]) -> ([1], [1]);\ndrop_felt([1]) -> ();\nreturn();\n\nverif::f@0([0]: felt252) -> ();\n",
+        # a result overriding a live variable
+        "override_live": "dup_felt([0]) -> ([0], [1]);\ndup_felt([1]) -> ([0], [2]);\ndrop_felt([0]) -> ();\ndrop_felt([2]) -> ();\nreturn();\n\nverif::f@0([0]: felt252) -> ();\n",
+        # use after move
+        "use_after_move": "drop_felt([0]) -> ();\ndrop_felt([0]) -> ();\nreturn();\n\nverif::f@0([0]: felt252) -> ();\n",
+        # the same variable twice in one argument list
+        "same_arg_twice": "felt252_add([0], [0]) -> ([1]);\nstore_felt([1]) -> ([1]);\nreturn([1]);\n\nverif::f@0([0]: felt252) -> (felt252);\n",
+        # a variable left over at return
+        "dangling": "dup_felt([0]) -> ([0], [1]);\nstore_felt([0]) -> ([0]);\nreturn([0]);\n\nverif::f@0([0]: felt252) -> (felt252);\n",
+        # wrong argument type
+        "wrong_arg_type": "libfunc u8_const7 = u8_const<7>;\nlibfunc drop_u8 = drop<u8>;\nu8_const7() -> ([1]);\ndrop_felt([1]) -> ();\ndrop_felt([0]) -> ();\nreturn();\n\nverif::f@0([0]: felt252) -> ();\n",
+        # wrong return type
+        "wrong_ret_type": "libfunc u8_const7 = u8_const<7>;\nlibfunc store_u8 = store_temp<u8>;\nu8_const7() -> ([1]);\nstore_u8([1]) -> ([1]);\ndrop_felt([0]) -> ();\nreturn([1]);\n\nverif::f@0([0]: felt252) -> (felt252);\n",
+        # a multi-branch libfunc whose explicit target is not a branch_align
+        "no_branch_align": "felt252_is_zero([0]) { fallthrough() B([1]) };\nbranch_align() -> ();\nreturn();\nB:\ndrop_nz([1]) -> ();\nreturn();\n\nverif::f@0([0]: felt252) -> ();\n",
+        # variable count mismatch at a merge
+        "merge_count": "felt252_is_zero([0]) { fallthrough() B([1]) };\nbranch_align() -> ();\njump() { M() };\nB:\nbranch_align() -> ();\nM:\nreturn();\n\nverif::f@0([0]: felt252) -> ();\n",
+        # flow converging into a branch target
+        "converge_into_branch_target": "felt252_is_zero([0]) { fallthrough() B([1]) };\nbranch_align() -> ();\ndup_felt([2]) -> ([2], [1]);\njump() { B() };\nB:\nbranch_align() -> ();\ndrop_felt([2]) -> ();\nreturn();\n\nverif::f@0([0]: felt252, [2]: felt252) -> ();\n",
+        # a backward jump that changes the variable set (loop head sees an extra variable)
+        "loop_changes_vars": "L:\ndup_felt([0]) -> ([0], [1]);\njump() { L() };\n\nverif::f@0([0]: felt252) -> ();\n",
+    }
+    for k, v in body.items():
+        progs[k] = _HDR + v
+    for f in glob.glob(os.path.join(out_dir, "n_*.sierra")):
+        os.unlink(f)
+    for k, v in progs.items():
+        open(os.path.join(out_dir, "n_%s.sierra" % k), "w").write(v)
+    return len(progs)
+
+
+def extra_sierra_corpus(out_dir):
+    """Copies /verif/corpus/sierra/*.sierra (programs compiled once from the .cairo next to them, for
+    libfunc families the repository's own Sierra corpus does not exercise) into out_dir."""
+    root = os.path.join(os.path.dirname(os.path.dirname(os.path.abspath(__file__))), "corpus", "sierra")
+    n = 0
+    for f in sorted(glob.glob(os.path.join(root, "*.sierra"))):
+        open(os.path.join(out_dir, "x_" + os.path.basename(f)), "w").write(open(f).read())
+        n += 1
+    return n
